@@ -80,6 +80,7 @@ def main():
     results = core.run_jobs(jobs)
     rep.add_results(results)
     core.triage(rep, results, info)
+    rep.validate_translation(info)
     return rep.finish('proof', 'goto-cc | cbmc --unwind --unwinding-assertions ' + ' '.join(bc.FLAGS) + ' (self-composition harness on the extracted codecs)',
                       core.TRUSTED_BASE)
 
